@@ -94,6 +94,10 @@ macro_rules! lmc_type {
                 let r = a.move_towards(b, d);
                 o.mv = arr4(r);
                 o.mv_bits = bits4(r);
+                let own = a.distance(b);
+                o.own_dist = own as f64;
+                o.mv_own_dist_bits = bits4(a.move_towards(b, own));
+                o.mv_zero_bits = bits4(a.move_towards(b, 0.0));
                 let r = a.clamp_length(mn, mx);
                 o.clamp = arr4(r);
                 o.clamp_bits = bits4(r);
